@@ -433,3 +433,95 @@ Proof.
         exists c, gown. rewrite (Hnth1 c Hci). auto.
       * split; cbn [v_key v_owner v_active]; auto; try (rewrite Vo, Ho; auto).
 Qed.
+
+(* ---- MReg ---- *)
+Lemma reg_ok : forall v s i, ms s -> vr v s -> e_can_reg s i = true -> step_ok_for v s (MReg i).
+Proof.
+  intros v s i M V Hcan. unfold step_ok_for.
+  pose proof (ms_reach_mop s (MReg i) M) as R'.
+  pose proof V as [Vk Vo Va].
+  unfold e_can_reg in Hcan. destruct (nth_error (es_rs s) i) as [g|] eqn:Hg; [|discriminate].
+  assert (Hlen : (i < length (es_rs s))%nat) by (apply nth_error_Some; congruence).
+  assert (Hna : g_pc g <> EActive) by (intro E; rewrite E in Hcan; discriminate).
+  destruct (e_grant (es_kv s) (g_ttl g)) as [id kv1] eqn:Hgr.
+  pose proof (grant_shape _ _ _ _ Hgr) as (Hid & Hk1 & Hr1 & Hl1 & Hn1).
+  set (s1 := mkES kv1 (upd i (mkEreg EGranted id (g_ttl g)) (es_rs s))).
+  assert (H1 : try_step estep s (GGrant i) = s1).
+  { unfold try_step, estep. rewrite Hg, Hcan, Hgr. reflexivity. }
+  assert (Hlive1 : live kv1 id).
+  { apply live_iff. rewrite Hl1. left. reflexivity. }
+  assert (Hidpos : 0 < id).
+  { pose proof (ereachable_ok s (ms_reach s M)) as (_ & _ & N & _). lia. }
+  assert (Hget1 : e_get ueq kv1 tt = e_get ueq (es_kv s) tt) by (unfold e_get; rewrite Hk1; reflexivity).
+  destruct (kvs_cases s (ms_reach s M)) as [E|[x [E Lx]]].
+  - (* key absent: the registration succeeds *)
+    destruct (key_empty s E) as (K1 & K2 & K3).
+    assert (Hg1 : e_get ueq kv1 tt = None) by (rewrite Hget1; exact K1).
+    destruct (e_put ueq kv1 tt tt id) as [kv2|] eqn:Hp.
+    2:{ apply (put_none ueq) in Hp. destruct Hp as [_ Hp]. congruence. }
+    pose proof (put_shape ueq _ _ _ _ _ Hg1 Hp) as (Hr2 & Hk2 & Hl2 & Hn2 & _).
+    set (ga := mkEreg EActive id (g_ttl g)).
+    set (s2 := mkES kv2 (upd i ga (es_rs s))).
+    assert (H2 : try_step estep s1 (GPut i) = s2).
+    { unfold try_step, estep, s1. cbn [es_rs es_kv]. rewrite nth_error_upd_same by auto. cbn [g_pc g_lease].
+      unfold e_put_if_absent. rewrite Hg1, Hp. unfold ewith. cbn [es_rs]. rewrite upd_upd. reflexivity. }
+    assert (Hi2 : nth_error (es_rs s2) i = Some ga) by (unfold s2; cbn [es_rs]; apply nth_error_upd_same; auto).
+    assert (Hm : e_mop s (MReg i) = (s2, e_obs s2 ResOk false)).
+    { unfold e_mop. rewrite H1, H2, Hi2. reflexivity. }
+    rewrite Hm in *. cbn [fst] in R'.
+    set (nk := mkEkv tt tt (e_rev kv1 + 1) (e_rev kv1 + 1) 1 id) in *.
+    assert (E2 : e_kvs (es_kv s2) = [nk]) by (unfold s2; cbn [es_kv]; rewrite Hk2, Hk1, E; reflexivity).
+    destruct (key_one s2 nk E2) as (K1' & K2' & K3').
+    assert (Ho2 : e_owner_idx s2 = Some i).
+    { apply (owner_idx_of s2 nk i ga); [apply reachable_lease_ok; auto|exact E2|exact Hi2|reflexivity|simpl; lia]. }
+    cbn [ok_step e_obs o_res o_key o_owner is_etcd]. fold (key_present s2). rewrite K2', Ho2, Vk, K2.
+    cbn [negb andb onat_eqb]. rewrite Nat.eqb_refl.
+    assert (Hnth2 : forall j, j <> i -> nth_error (es_rs s2) j = nth_error (es_rs s) j)
+      by (intros j Hj; unfold s2; cbn [es_rs]; apply nth_error_upd_other; auto).
+    split; auto. split.
+    + split; auto.
+      * intros g0 Hg0. unfold s2 in Hg0; cbn [es_rs] in Hg0. apply In_upd in Hg0. destruct Hg0 as [->|Hg0].
+        -- right; left; reflexivity.
+        -- apply (ms_stable s M); auto.
+      * intros y Ey. rewrite E2 in Ey. inversion Ey; subst y. exists i, ga. auto.
+    + split; cbn [v_key v_owner v_active]; auto.
+      intros j. simpl. rewrite in_remove_nat. unfold active_at. destruct (Nat.eq_dec j i) as [->|Hj].
+      * split; [intros _; exists ga; auto|auto].
+      * rewrite (Hnth2 j Hj). split.
+        -- intros [F|[Hin _]]; [congruence|]. apply Va; auto.
+        -- intros Ha. right. split; auto. apply Va; auto.
+  - (* key present: rejected *)
+    destruct (key_one s x E) as (K1 & K2 & K3).
+    destruct (ms_owner_idx s x M E) as (c & gown & Hc & Hpc & Elc & Ho).
+    assert (Hci : c <> i) by (intro Ec; subst c; rewrite Hg in Hc; inversion Hc; subst gown; congruence).
+    assert (Hg1 : e_get ueq kv1 tt = Some x) by (rewrite Hget1; exact K1).
+    set (gr := mkEreg (ERejected KeyExists) id (g_ttl g)).
+    set (s2 := mkES kv1 (upd i gr (es_rs s))).
+    assert (H2 : try_step estep s1 (GPut i) = s2).
+    { unfold try_step, estep, s1. cbn [es_rs es_kv]. rewrite nth_error_upd_same by auto. cbn [g_pc g_lease].
+      unfold e_put_if_absent. rewrite Hg1. unfold ewith. cbn [es_rs]. rewrite upd_upd. reflexivity. }
+    assert (Hi2 : nth_error (es_rs s2) i = Some gr) by (unfold s2; cbn [es_rs]; apply nth_error_upd_same; auto).
+    assert (Hm : e_mop s (MReg i) = (s2, e_obs s2 ResExists false)).
+    { unfold e_mop. rewrite H1, H2, Hi2. reflexivity. }
+    rewrite Hm in *. cbn [fst] in R'.
+    assert (E2 : e_kvs (es_kv s2) = [x]) by (unfold s2; cbn [es_kv]; rewrite Hk1; exact E).
+    destruct (key_one s2 x E2) as (K1' & K2' & K3').
+    assert (Hnth2 : forall j, j <> i -> nth_error (es_rs s2) j = nth_error (es_rs s) j)
+      by (intros j Hj; unfold s2; cbn [es_rs]; apply nth_error_upd_other; auto).
+    assert (Ho2 : e_owner_idx s2 = Some c).
+    { apply (owner_idx_of s2 x c gown); [apply reachable_lease_ok; auto|exact E2|rewrite (Hnth2 c Hci); exact Hc|exact Elc|].
+      rewrite <- Elc. pose proof (active_lease_pos s c gown (ms_reach s M) Hc Hpc). lia. }
+    cbn [ok_step e_obs o_res o_key is_w]. fold (key_present s2). rewrite K2'.
+    split; auto. split.
+    + split; auto.
+      * intros g0 Hg0. unfold s2 in Hg0; cbn [es_rs] in Hg0. apply In_upd in Hg0. destruct Hg0 as [->|Hg0].
+        -- right; right; right. eexists; reflexivity.
+        -- apply (ms_stable s M); auto.
+      * intros y Ey. rewrite E2 in Ey. inversion Ey; subst y. exists c, gown. rewrite (Hnth2 c Hci). auto.
+    + split; cbn [v_key v_owner v_active]; auto; try congruence.
+      intros j. unfold active_at. destruct (Nat.eq_dec j i) as [->|Hj].
+      * rewrite Hi2. split.
+        -- intros Hin. apply Va in Hin. destruct Hin as (g0 & E0 & P0). rewrite Hg in E0. inversion E0; subst; congruence.
+        -- intros (g0 & E0 & P0). inversion E0; subst g0. discriminate.
+      * rewrite (Hnth2 j Hj). apply Va.
+Qed.
